@@ -66,7 +66,24 @@ class Ctx:
     def cfg(self, f: FuncInfo) -> CFG:
         q = f.qname
         if q not in self._cfg:
-            self._cfg[q] = CFG(f.body, noreturn=lambda st: self._stmt_noreturn(f, st), name=q)
+            # attribute accesses that are really calls (property getter/setter, intercepted store) may raise;
+            # a plain field of `self` / of a typed receiver with no interception does not
+            calls = {id(s.node) for s in self.sites(f) if s.kind in ("getter", "setter", "setattr")}
+
+            def attr_raises(n, calls=calls, f=f):
+                if id(n) in calls:
+                    return True
+                t = self.res.type_of(f, n.value)
+                if not t:
+                    return True             # unknown receiver: stay conservative
+                if any(term[0] == "inst" for term in t):
+                    for term in t:
+                        if term[0] == "inst" and self.prog.classes[term[1]].lookup("__getattr__") and isinstance(n.ctx, ast.Load):
+                            return False    # SideState / SyncEntry field read
+                    return False
+                return any(term[0] in ("ext",) for term in t) and False
+
+            self._cfg[q] = CFG(f.body, noreturn=lambda st: self._stmt_noreturn(f, st), name=q, attr_raises=attr_raises)
         return self._cfg[q]
 
     def facts(self, f: FuncInfo) -> Facts:
